@@ -63,7 +63,7 @@ def truth_remaps(lib, c):
         return {'float': 'double a%d' % i, 'str': 'std::string const &a%d' % i}.get(cat) or '%s const &a%d' % (cls, i)
     out = {}
     for s_ in c['ovsets']:
-        out[s_['name']] = [(', '.join(norm(cat, cls, i, lib.mixed and j % 2 == 1) for i, (cat, cls) in enumerate(o['vec'])), False, len(o['vec']), len(o['vec'])) for j, o in enumerate(s_['overloads'])]
+        out[s_['name']] = [(', '.join(norm(cat, cls, i, lib.mixed and j % 2 == 1) for i, (cat, cls) in enumerate(o['vec'])), s_['const'], len(o['vec']), len(o['vec'])) for j, o in enumerate(s_['overloads'])]
     for d_ in c['dflts']:
         ps = ['int r%d' % i for i in range(d_['nreq'])] + ['int d%d' % i for i in range(len(d_['defaults']))]
         out[d_['name']] = [(', '.join(ps), False, d_['nreq'], d_['nreq'] + len(d_['defaults']))]
@@ -186,6 +186,7 @@ def main():
                 x = [y for y in lib.classes if y['name'] == x['base']][0]
         model_lines = []
         model_expect = []      # (label, tag)
+        cmodel_lines = []      # the const-aware dispatcher: (line, label, expected model answer)
         T.append('objs = {}')
         for c in lib.classes:
             T.append('objs[%r] = M.%s(%d)' % (c['name'], c['name'], 10 + ids[c['name']]))
@@ -249,6 +250,7 @@ def main():
             T.append('raises("%s wrong keyword name", lambda: k.scale_%s(offset=3), "TypeError")' % (n, n))
             T.append('raises("%s unknown keyword", lambda: k.scale_%s(nothing=3), "TypeError")' % (n, n))
             T.append('del o2')
+            T.append('cv2 = k.cself_%s()' % n)
             for s in c['ovsets']:
                 ovl = '(' + ' '.join('(' + ' '.join({'int': 'll' if (mixed and j % 2) else 'int', 'float': 'double', 'str': 'string'}.get(cat) or '(class %d)' % ids[cls] for cat, cls in o['vec']) + ')'
                                      for j, o in enumerate(s['overloads'])) + ')'
@@ -272,6 +274,16 @@ def main():
                     T.append('expect(%r, lambda: k.%s(%s), %d)' % (label, s['name'], ', '.join(args_py), o['tag']))
                     model_lines.append('((%s) (%s) %s (%s))' % (depths, ' '.join(bases), ovl, ' '.join(args_m)))
                     model_expect.append((label, o, s))
+                    # the same call on a const view of the object: a const set answers alike, a non-const set is not callable
+                    if s['const']:
+                        T.append('expect(%r, lambda: cv2.%s(%s), %d)' % (label + ' on a const object', s['name'], ', '.join(args_py), o['tag']))
+                    else:
+                        T.append('raises(%r, lambda: cv2.%s(%s), "TypeError")' % (label + ' on a const object', s['name'], ', '.join(args_py)))
+                    covl = '(' + ' '.join('(' + ('1 ' if s['const'] else '0 ') + ' '.join({'int': 'll' if (mixed and j % 2) else 'int', 'float': 'double', 'str': 'string'}.get(cat) or '(class %d)' % ids[cls]
+                                                                                        for cat, cls in q['vec']) + ')' for j, q in enumerate(s['overloads'])) + ')'
+                    want_m = ('c ' if s['const'] else 'n ') + '(' + ' '.join({'int': 'int', 'float': 'double', 'str': 'string'}.get(cat) or '(class %d)' % ids[cls] for cat, cls in o['vec']) + ')'
+                    cmodel_lines.append(('((%s) (%s) %s 0 (%s))' % (depths, ' '.join(bases), covl, ' '.join(args_m)), label, want_m))
+                    cmodel_lines.append(('((%s) (%s) %s 1 (%s))' % (depths, ' '.join(bases), covl, ' '.join(args_m)), label + ' on a const object', want_m if s['const'] else 'none'))
                 # an instance of a derived class where a base class is expected (only overload of its arity: nothing else can compete)
                 for o in s['overloads']:
                     if sum(1 for q in s['overloads'] if len(q['vec']) == len(o['vec'])) != 1:
@@ -287,6 +299,12 @@ def main():
                             T.append('expect("%s.%s with a %s where %s is expected", lambda: k.%s(%s), %d)' % (n, s['name'], ders[0], cls, s['name'], ', '.join(a2), o['tag']))
                 T.append('raises("%s.%s(None)", lambda: k.%s(None), "TypeError")' % (n, s['name'], s['name']))
                 T.append('raises("%s.%s with 9 arguments", lambda: k.%s(1, 2, 3, 4, 5, 6, 7, 8, 9), "TypeError")' % (n, s['name'], s['name']))
+            T.append('del cv2')
+            # the const / non-const pairs through the const-aware dispatcher of the model
+            for fn_, pk_ in (('which', ''), ('tagc', ' int')):
+                pair_ = '((1%s) (0%s))' % (pk_, pk_)
+                cmodel_lines.append(('(() () %s 0 (%s))' % (pair_, pk_.strip()), '%s const/non-const pair on a non-const object' % n, 'n (%s)' % pk_.strip()))
+                cmodel_lines.append(('(() () %s 1 (%s))' % (pair_, pk_.strip()), '%s const/non-const pair on a const object' % n, 'c (%s)' % pk_.strip()))
             for dd in c['dflts']:
                 req = list(range(2, 2 + dd['nreq']))
                 def val(rs, ds):
@@ -344,6 +362,13 @@ def main():
             if mres != want:
                 ck.violation('thm-instance', 'the model dispatches %s to %s in a consistent, distinguishable set (contradicts c02_dispatch_exact_partial)' % (label, mres),
                              dict(rp0, kind='proof', theorems=['c02_dispatch_exact_partial']), nofail=True)
+        # the const-aware dispatcher (c02_const_dispatch_exact_partial): its answer must be the expected member, and the module must agree with it
+        cm = vlib.run_model('C02', 'cdispatch', [x[0] for x in cmodel_lines]) if cmodel_lines and not mixed else []
+        for (line_, label, want_m), mres in zip(cmodel_lines, cm):
+            ck.count()
+            if mres != want_m:
+                ck.violation('thm-instance', 'the const-aware model dispatches %s to %s, expected %s (contradicts c02_const_dispatch_exact_partial)' % (label, mres, want_m),
+                             dict(rp0, kind='proof', theorems=['c02_const_dispatch_exact_partial'], case=line_), nofail=True)
         for x in bads:
             if mixed and '.ov' in x:
                 ck.spec_failure('dispatch:mixed-integer-widths', x, dict(rp0, kind='spec'))
